@@ -44,7 +44,13 @@ func (m *Machine) mutexOf(p Value) (*mutexState, *StructV) {
 	return st, s
 }
 
-type poolState struct{ items []Value }
+// poolState models sync.Pool as seen by one P without GC: a private slot that Put fills first and
+// Get empties first, and a LIFO shared list.
+type poolState struct {
+	private Value
+	hasPriv bool
+	items   []Value
+}
 type onceState struct{ done bool }
 type wgState struct{ n int64 }
 type atomicValKey struct{ s *StructV }
@@ -333,11 +339,19 @@ func buildIntrinsics() map[string]Intrinsic {
 			st = &poolState{}
 			m.side[s] = st
 		}
-		if n := len(st.items); n > 0 && m.H.Params["poolFresh"] == 0 {
-			v := st.items[n-1]
-			st.items = st.items[:n-1]
-			m.hbAcquire(th, s)
-			return v
+		if m.H.Params["poolFresh"] == 0 {
+			if st.hasPriv {
+				v := st.private
+				st.private, st.hasPriv = nil, false
+				m.hbAcquire(th, s)
+				return v
+			}
+			if n := len(st.items); n > 0 {
+				v := st.items[n-1]
+				st.items = st.items[:n-1]
+				m.hbAcquire(th, s)
+				return v
+			}
 		}
 		newFn := s.f[fieldIndex(fn.Signature.Recv().Type().(*types.Pointer).Elem(), "New")]
 		if newFn == nil {
@@ -353,7 +367,11 @@ func buildIntrinsics() map[string]Intrinsic {
 			st = &poolState{}
 			m.side[s] = st
 		}
-		st.items = append(st.items, a[1])
+		if !st.hasPriv {
+			st.private, st.hasPriv = a[1], true
+		} else {
+			st.items = append(st.items, a[1])
+		}
 		m.hbRelease(th, s)
 		return nil
 	}
